@@ -39,12 +39,12 @@ func (t *terminal) ptyReadOne(gr *GraphemeReader) error {
 		writeString(string, int, bool, TextReadMode)
 	})
 	if useBytes {
-		maxWidth := 0
-		if t.screen().AutoWrap() {
-			maxWidth = t.screen().Size().X - t.screen().CursorPos().X
-			if maxWidth < 1 {
-				maxWidth = 1
-			}
+		// Never hand over more than fits on the rest of the row: with autowrap
+		// the remainder continues on the next row, without it every further
+		// character overwrites the last column.
+		maxWidth := t.screen().Size().X - t.screen().CursorPos().X
+		if maxWidth < 1 {
+			maxWidth = 1
 		}
 		data, width, merge, err := gr.ReadPrintableBytes(maxWidth)
 		if err != nil {
